@@ -47,6 +47,7 @@ type XferInfo struct {
 	Memo      string
 	RecvOK    bool // destination credited the receiver
 	Refunded  bool
+	Settled   bool // successfully acknowledged
 	ExpectOK  bool // model: the destination must accept (valid, unblocked receiver)
 	Granter   int  // >= 0: executed under an authz grant of this account
 	Sentinel  bool // amount was the "entire balance" sentinel
@@ -111,10 +112,18 @@ func (p *Core) setupTokens(ea, eb *sim.ConnEnd, tm sim.TMConfig) {
 			links = append(links, link{e3, e4})
 		}
 	}
-	for _, l := range links {
-		ca, cb := sim.OpenChannel(l.ea, l.eb, transfertypes.PortID, transfertypes.PortID, transfertypes.V1, channeltypes.UNORDERED)
-		p.Routes = append(p.Routes, &Route{Kind: "t1", Xfer: true, Chain: [2]*sim.Chain{l.ea.Chain, l.eb.Chain}, Port: [2]string{ca.Port, cb.Port}, ID: [2]string{ca.ChanID, cb.ChanID},
-			Client: [2]string{l.ea.ClientID, l.eb.ClientID}, Conn: [2]string{l.ea.ConnID, l.eb.ConnID}})
+	for li, l := range links {
+		n := 1
+		if li == 0 && p.Opt.ManyChans {
+			// enough channels on one link that identifiers become textual prefixes of each other
+			// (channel-1 / channel-10, channel-11, ...)
+			n = 12
+		}
+		for k := 0; k < n; k++ {
+			ca, cb := sim.OpenChannel(l.ea, l.eb, transfertypes.PortID, transfertypes.PortID, transfertypes.V1, channeltypes.UNORDERED)
+			p.Routes = append(p.Routes, &Route{Kind: "t1", Xfer: true, Chain: [2]*sim.Chain{l.ea.Chain, l.eb.Chain}, Port: [2]string{ca.Port, cb.Port}, ID: [2]string{ca.ChanID, cb.ChanID},
+				Client: [2]string{l.ea.ClientID, l.eb.ClientID}, Conn: [2]string{l.ea.ConnID, l.eb.ConnID}})
+		}
 	}
 	if p.wantKind("t2") {
 		fa, fb := sim.NewClientPair(p.C[0], p.C[1], tm, tm)
@@ -210,6 +219,24 @@ func (p *Core) genXfer() []sim.Op {
 			if strings.HasPrefix(x, "ibc/") {
 				denom = x
 				break
+			}
+		}
+	}
+	if p.Opt.ManyChans && strings.HasPrefix(denom, "ibc/") && w.Chance(0.6) {
+		// send the voucher onward over a SIBLING channel whose identifier is a textual prefix of
+		// (or prefixed by) the channel it arrived over
+		if path, ok := p.tok.vouchers[src.Idx][denom]; ok {
+			parts := strings.SplitN(path, "/", 3)
+			if len(parts) == 3 {
+				for i, rt := range p.Routes {
+					for e := 0; e < 2; e++ {
+						if rt.Xfer && !rt.V2 && rt.Chain[e].Idx == src.Idx && rt.ID[e] != parts[1] &&
+							(strings.HasPrefix(parts[1], rt.ID[e]) || strings.HasPrefix(rt.ID[e], parts[1])) {
+							ri, r, d = i, rt, e
+							dst = rt.Chain[1-e]
+						}
+					}
+				}
 			}
 		}
 	}
@@ -526,6 +553,10 @@ func (p *Core) tokApplyRelay(ci int, r *sim.TxResult, ps *PktState, lbl string) 
 	dstPort, dstID := rt.Port[1-d], rt.ID[1-d]
 	switch lbl {
 	case "recv":
+		if x.RecvOK {
+			w.Violate("C30", "second-receive-processed", "", fmt.Sprintf("%s: the transfer was credited on the destination before and a further receive was processed", ps.Pkt))
+			return
+		}
 		ok := ackIsSuccess(ps)
 		if x.Fwd != nil {
 			p.tokApplyForwardRecv(ci, r, ps, ok)
@@ -596,6 +627,7 @@ func (p *Core) tokApplyRelay(ci int, r *sim.TxResult, ps *PktState, lbl string) 
 	case "ack":
 		if ackIsSuccess(ps) {
 			p.rlAckSuccess(ci, srcID, x.SrcDenom, ps.Seq())
+			x.Settled = true
 			return
 		}
 		p.tokRefund(ci, ps, "error-ack")
@@ -612,6 +644,14 @@ func (p *Core) tokRefund(ci int, ps *PktState, why string) {
 	d := ps.Dir
 	if x.Fwd != nil && x.Fwd.Prev != nil {
 		p.tokRefundForwarded(ci, ps, why)
+		return
+	}
+	if x.Refunded || x.Settled {
+		// the transfer already reached its terminal outcome: a second terminal message that core
+		// lets through must not move anything (the model predicts no change; a real change is
+		// reported by the bank-diff oracle of this block)
+		p.w.Violate("C32", "second-terminal-outcome-processed", "", fmt.Sprintf("%s: a second %s was processed for a transfer that had already been %s", ps.Pkt, why, map[bool]string{true: "refunded", false: "acknowledged"}[x.Refunded]))
+		p.tok.blockKinds["refund"] = true
 		return
 	}
 	pr := p.tok.pred[ci]
